@@ -175,7 +175,9 @@ V1_Leafs(t) == CASE t = "Q" -> { Sel("", "a"), Sel("k", "b"),
                                  SelA("", "gnli", <<[n |-> "nli", v |-> ListV(<<IntV("3"), VarRef("i1")>>)]>>),
                                  SelA("h", "g", <<[n |-> "lli", v |-> ListV(<<ListV(<<IntV("1"), VarRef("i1")>>)>>)],
                                                   [n |-> "lni", v |-> ListV(<<VarRef("i1")>>)]>>) }
-                 [] t = "O" -> { Sel("", "x"), Sel("k", "w") }
+                 \* __type / __schema exist at the query root only: below an object no field definition applies
+                 [] t = "O" -> { Sel("", "x"), Sel("k", "w"), SelA("", "__type", <<[n |-> "name", v |-> StrV("O")]>>),
+                                 Sel("", "__schema") }
                  [] OTHER -> {}
 V1_Comps(t) == CASE t = "Q" -> { Sel("", "o"), Sel("m", "l") }
                  [] t = "O" -> { Sel("", "z") }
